@@ -559,7 +559,8 @@ class Interp:
         st = mp.strip_generics(raw)
         segs = _split_path(st)
         # enum unit variant?
-        if len(segs) >= 2 and segs[-2] in self.prog.enum_index:
+        if len(segs) >= 2 and segs[-2] in self.prog.enum_index and \
+                any(n == segs[-1] for n, _d in self.prog.enum_index[segs[-2]]):
             vi = self.prog.variant_index(segs[-2], segs[-1])
             return Enum(segs[-2], vi, segs[-1])
         # unit / empty tuple struct constants: `const Foo` / `const Foo()`
@@ -575,6 +576,14 @@ class Interp:
         fn = self.models.const_model(raw, segs)
         if fn is not None:
             return fn
+        # an associated constant of a crate type: defined as `<impl at SPAN>::NAME`, used as `Type::NAME`
+        if len(segs) >= 2:
+            for name, lst in self.prog.fns.items():
+                if lst[0].kind != 'const' or not name.endswith('>::' + segs[-1]):
+                    continue
+                m3 = re.search(r'<impl at (src/[^:]+:\d+:\d+): \d+:\d+>::%s$' % re.escape(segs[-1]), name)
+                if m3 and self.prog.src.impl_at(m3.group(1)).get('self_ty') == segs[-2]:
+                    return self.eval_const_item(lst[0])
         raise Unmodelled('constant %r' % raw)
 
     def eval_const_item(self, f):
